@@ -4,8 +4,8 @@
   Proved here at full strength for FOLDING (any lexical value, any format): every truth / budget
   component of an `Ok` result lies in [0,1] and every image index is at most its component count, at
   every nesting depth; and the range / arity facts for the enum parser's item readers.
-  Remaining obligation: `eparse_wf` for the whole enum parser recursion (DESIGN.md §6); it is covered
-  by the strict correspondence on the malformed stream and the `wf` oracle on every real `Ok`.
+  The enum PARSER part (`eparse_wf`: for every input string and every format record) is proved in
+  `C12b.lean`. Together: C12 is proved at full strength on the model.
 -/
 import Proofs.FoldLemmas
 import NarseseModel.Api
